@@ -144,7 +144,19 @@ def equal_size_guarded(fi: FuncInfo, node: ast.AST, a: ast.AST, b: ast.AST) -> b
     """``node`` executes only when number_of_nodes of the two graphs are equal."""
     pm = parent_map(fi.node)
     ta, tb = norm(a), norm(b)
+    fdefs = local_defs(fi.node)
+
+    def _expand(t, depth=3):
+        """a test through single-assigned boolean flags: `same = a == b and c == d` ... `if same:`"""
+        if depth > 0 and isinstance(t, ast.Name) and len(fdefs.get(t.id, [])) == 1 and fdefs[t.id][0].kind == "assign" and fdefs[t.id][0].value is not None:
+            return _expand(fdefs[t.id][0].value, depth - 1)
+        if isinstance(t, ast.BoolOp):
+            return ast.BoolOp(op=t.op, values=[_expand(v, depth) for v in t.values])
+        if isinstance(t, ast.UnaryOp) and isinstance(t.op, ast.Not):
+            return ast.UnaryOp(op=t.op, operand=_expand(t.operand, depth))
+        return t
     for test, sense in guards_of(pm, node, fi.node):
+        test = _expand(test)
         for cmp_ in [n for n in ast.walk(test) if isinstance(n, ast.Compare)]:
             if len(cmp_.ops) == 1:
                 l, r = norm(cmp_.left), norm(cmp_.comparators[0])
